@@ -110,7 +110,8 @@ fn render_layout(toks: &[Tok], enders: &[String], rng: &mut Rng) -> String {
 }
 
 pub fn c06(ctx: &Ctx) -> PropResult {
-    let enders = extract::enders();
+    // the statement enders the property names (not the live table: the live table is what is being checked)
+    let enders: Vec<String> = ["Identifier", "Number", "StringLiteral", "True", "False", "Null", "RightParen", "RightBracket", "RightBrace", "Break", "Continue", "Return"].iter().map(|s| s.to_string()).collect();
     let mut rng = mk_rng(ctx.seed, 6);
     let mut programs = corpus_programs();
     let np = if ctx.quick() { 300 } else { 3_000 };
@@ -137,6 +138,28 @@ pub fn c06(ctx: &Ctx) -> PropResult {
         }
         cases.push(Case::new(Kind::Lex, format!("{text}\n+ 1")).tag("newline-after-token").aux(kind.clone()));
         cases.push(Case::new(Kind::Lex, format!("x {text} // c\n y")).tag("newline-after-token").aux(kind));
+    }
+    // behavioural form of the converse clause: a statement after a bare RETURN / BREAK / CONTINUE + newline is a
+    // statement of its own (dead code), never an operand
+    for (a, b) in [
+        ("PROCEDURE f() {\nDISPLAY(\"in\")\nRETURN\n", "}\nDISPLAY(f())\n"),
+        ("PROCEDURE f() {\nIF (TRUE) {\nRETURN\n", "}\nRETURN 5\n}\nDISPLAY(f())\n"),
+        ("REPEAT 2 TIMES {\nDISPLAY(\"it\")\nBREAK\n", "}\n"),
+        ("REPEAT 2 TIMES {\nDISPLAY(\"it\")\nCONTINUE\n", "}\n"),
+        ("x <- 5\ny <- x\n", "DISPLAY(y)\n"),
+        ("l <- [1, 2]\ny <- l[1]\n", "DISPLAY(y)\n"),
+        ("y <- (1)\n", "DISPLAY(y)\n"),
+        ("y <- \"s\"\n", "DISPLAY(y)\n"),
+        ("y <- TRUE\n", "DISPLAY(y)\n"),
+        ("y <- NULL\n", "DISPLAY(y)\n"),
+        ("y <- 3\n", "DISPLAY(y)\n"),
+    ] {
+        for next in ["-1", "- 1", "(2)", "[3]", "\"dead\"", "z <- 4", "DISPLAY(\"next\")", "NOT TRUE"] {
+            // the same program with an explicit `;` where the newline is: both must behave alike
+            let nl = format!("{a}{next}\n{b}");
+            let semi = format!("{}; {next}\n{b}", a.trim_end_matches('\n'));
+            cases.push(Case::new(Kind::Run, nl).tag("newline-ends-statement").aux(semi));
+        }
     }
     let enders2 = enders.clone();
     let oracle = move |case: &Case, out: &Outcome| -> Result<bool, String> {
@@ -177,6 +200,14 @@ pub fn c06(ctx: &Ctx) -> PropResult {
             let canon = imp::run_impl(&case.aux, "", case.fuel, 48);
             if canon.class() != r.class() || canon.output != r.output {
                 return Err(format!("the layout variant behaves differently: canonical {} {:?} / variant {} {:?}", canon.status_str(), canon.output, r.status_str(), r.output));
+            }
+            return Ok(true);
+        }
+        if case.tags.iter().any(|t| t == "newline-ends-statement") {
+            let Some(r) = out.impl_run.as_ref() else { return Ok(false) };
+            let twin = imp::run_impl(&case.aux, "", case.fuel, 48);
+            if twin.class() != r.class() || twin.output != r.output {
+                return Err(format!("a newline after a statement-ending token did not end the statement: with `;` {} {:?} / with newline {} {:?}", twin.status_str(), twin.output, r.status_str(), r.output));
             }
             return Ok(true);
         }
